@@ -89,7 +89,7 @@ def main():
     has_props = os.path.exists(os.path.join(vlib.LEAN, "Mustache", "Props", a.prop + ".lean"))
     if has_props:
         try:
-            ctx.proof = vlib.lean_audit(a.prop, leanchecker=(tier == "thorough"))
+            ctx.proof = vlib.lean_audit(a.prop, leanchecker=(tier == "thorough"), extra=getattr(mod, "EXTRA_PROPS", ()))
         except Exception as e:  # noqa: BLE001
             ctx.proof = {"ok": False, "obligations": 0, "discharged": 0, "axioms": {}, "theorems": [],
                          "problems": ["audit crashed: %r" % (e,)]}
